@@ -1949,6 +1949,19 @@ pub fn systematic(thorough: bool) -> Vec<Vec<u64>> {
             out.push(c_frames(None, &b));
         }
         web_systematic(&mut out);
+        // round trip of an ls response for every length of the first name (the length prefix of
+        // a 46-byte name is '/', which makes the encoding look like a single protocol name)
+        for n in 1..=130usize {
+            let mut name = vec![b'/'];
+            name.extend(vec![b'a'; n - 1]);
+            let mut c = vec![20, 20, 4, 2];
+            el(&mut c, &name);
+            el(&mut c, b"/b");
+            out.push(c);
+            let mut c = vec![20, 20, 4, 1];
+            el(&mut c, &name);
+            out.push(c);
+        }
         // ls response with every extreme entry length
         for v in all_extremes() {
             let mut b = vec![3, b'/', b'a', b'\n'];
